@@ -3,6 +3,7 @@ EXTENDS SplStatic, Json
 TN == {"vec", "mat"}
 TN0 == {}
 PN1 == {"p"}
+PN0 == {}
 VN1 == {"a"}
 PN == {"p", "q"}
 VN == {"a", "i"}
